@@ -125,6 +125,13 @@ CLAIMED["C17"] = dict(
    note="Interleavings are sampled at hook points; races inside select(2) are not enumerable. poll(None) is guarded by a rescue thread; a poll that cannot be ended kills the worker and is attributed to the case.",
    design="§3 C17")
 
+CLAIMED["C19"] = dict(
+   technique="property-based testing in a memory-capped worker process: serde/text round trips of generated faces, sizes, chords and images (crops, strided views, 1/3/4-channel JSON); grammar-based and arbitrary JSON / byte documents with per-field valid/missing/repeated/wrong-type/extreme modes and nesting up to 120 levels; every accepted view tree is laid out and rendered into a sentinel canvas",
+   level="exploration",
+   text="64k cases per quick run; deserialisation must return Ok or Err without panic, abort, stack overflow or unbounded allocation (1 GiB address-space cap), and must finish (per-case time limit, re-tried once in a fresh process); successful view trees are laid out under three constraints with both glyph settings and rendered.",
+   note="One known finding is a defect of the rasterize dependency (arc path parser). 'Rendered' means View::layout + View::render, not glyph rasterisation by the terminal renderer.",
+   design="§3 C19")
+
 NOT_APPLICABLE = {}
 
 def main():
